@@ -13,19 +13,28 @@ Open Scope string_scope.
 (* ------------------------------------------------------------------------------------------------ *)
 (* one forecast case: members X (NaN = missing member), observation y                                  *)
 (* ------------------------------------------------------------------------------------------------ *)
+(* the reduction over the member dimension named by the source (xarray semantics: sum / mean skip NaN; sum of nothing = 0,
+   mean of nothing = NaN; count = number of non-NaN; sizes[m] = number of slots) *)
+Definition red (k : string) (l : list xv) : xv :=
+  if String.eqb k "sum" then nansum l
+  else if String.eqb k "mean" then nanmean l
+  else if String.eqb k "count" then xcount l
+  else if String.eqb k "size" then xofnat (length l)
+  else XNaN.
+
 (* fcst_spread_term = 0; for i: fcst_spread_term += abs(fcst - fcst.isel(m=i)).sum(dim=m)   [sum skips NaN] *)
 Definition ens_pair_sum (X : list xv) : xv :=
-  xsum (map (fun xi => nansum (map (fun xj => gen_crps_pair_cell xj xi) X)) X).
+  xsum (map (fun xi => red gen_crps_pair_red (map (fun xj => gen_crps_pair_cell xj xi) X)) X).
 (* ens_count = fcst.count(m) *)
-Definition ens_count (X : list xv) : xv := xcount X.
+Definition ens_count (X : list xv) : xv := red gen_crps_count_red X.
 (* fcst_obs_term = abs(fcst - obs).mean(dim=m)                                             [mean skips NaN] *)
-Definition ens_obs_term (X : list xv) (y : xv) : xv := nanmean (map (fun x => gen_crps_obs_cell x y) X).
+Definition ens_obs_term (X : list xv) (y : xv) : xv := red gen_crps_obs_red (map (fun x => gen_crps_obs_cell x y) X).
 Definition ens_spread (meth : string) (X : list xv) : xv := gen_crps_norm meth (ens_pair_sum X) (ens_count X).
 
 Definition crps_case (meth : string) (X : list xv) (y : xv) : xv :=
   gen_crps_total (ens_obs_term X y) (ens_spread meth X).
-Definition crps_under (X : list xv) (y : xv) : xv := nanmean (map (fun x => gen_crps_under_cell x y) X).
-Definition crps_over (X : list xv) (y : xv) : xv := nanmean (map (fun x => gen_crps_over_cell x y) X).
+Definition crps_under (X : list xv) (y : xv) : xv := red gen_crps_under_red (map (fun x => gen_crps_under_cell x y) X).
+Definition crps_over (X : list xv) (y : xv) : xv := red gen_crps_over_red (map (fun x => gen_crps_over_cell x y) X).
 Definition crps_spread_c (meth : string) (X : list xv) (y : xv) : xv :=
   gen_crps_spread_mask (ens_spread meth X) (ens_obs_term X y).
 
@@ -89,12 +98,13 @@ Definition case_arr (f o : larr) (m : dim) (k : list xv -> xv -> xv) : larr :=
      lsize := fun d => if mem d (ldims f) then lsize f d else lsize o d;
      lget := fun e => k (members f m e) (lget o e) |}.
 
-Inductive twmode := TwPlain | TwTail (tail : string) (t : larr) | TwInterval (lo hi : larr).
+Inductive twmode := TwPlain | TwTail (tail : string) (t : larr) | TwInterval (scalars : bool) (lo hi : larr).
 
-(* `(lower >= upper).any()` over the broadcast of the two thresholds (scalars are 0-d arrays) *)
-Definition interval_bad (lo hi : larr) : bool :=
-  let z := lzip (fun a b => b2x (gen_guard_interval a b)) lo hi in
-  existsb (fun e => gen_guard_interval (lget lo e) (lget hi e)) (envs (lsize z) (ldims z) env0).
+(* both thresholds Python scalars: `lower >= upper`; otherwise `(lower >= upper).any()` over the broadcast of the two *)
+Definition interval_bad (scalars : bool) (lo hi : larr) : bool :=
+  if scalars then gen_guard_interval (lget lo env0) (lget hi env0) else
+  let z := lzip (fun a b => b2x (gen_guard_interval_arr a b)) lo hi in
+  existsb (fun e => gen_guard_interval_arr (lget lo e) (lget hi e)) (envs (lsize z) (ldims z) env0).
 
 Definition chain (mode : twmode) (f o : larr) : result (larr * larr) :=
   match mode with
@@ -102,8 +112,8 @@ Definition chain (mode : twmode) (f o : larr) : result (larr * larr) :=
   | TwTail tail t =>
       do _ <- c06_of_guard (gen_guard_tail tail) ;;
       Ok (lzip (gen_chain_tail tail) f t, lzip (gen_chain_tail tail) o t)
-  | TwInterval lo hi =>
-      if interval_bad lo hi then Err ValueError
+  | TwInterval sc lo hi =>
+      if interval_bad sc lo hi then Err ValueError
       else Ok (lzip3 gen_chain_interval f lo hi, lzip3 gen_chain_interval o lo hi)
   end.
 
@@ -127,7 +137,8 @@ Definition d_twmode (r : raw) : option twmode :=
   | RL [k; a; b] =>
       let? k := d_str k in
       if String.eqb k "tail" then (let? tail := d_str a in let? t := d_larr b in Some (TwTail tail t))
-      else if String.eqb k "interval" then (let? lo := d_larr a in let? hi := d_larr b in Some (TwInterval lo hi))
+      else if String.eqb k "interval" then (let? lo := d_larr a in let? hi := d_larr b in Some (TwInterval false lo hi))
+      else if String.eqb k "interval_s" then (let? lo := d_larr a in let? hi := d_larr b in Some (TwInterval true lo hi))
       else None
   | _ => None end.
 
